@@ -3,6 +3,12 @@
 // direct oracle (round trips, a/b*b+r, ...) the oracle is evaluated on the
 // implementation and failures are printed as "!<id> <text>".
 #include <veriblock/pop/arith_uint256.hpp>
+#include <veriblock/pop/base58.hpp>
+#include <veriblock/pop/base59.hpp>
+#include <veriblock/pop/entities/address.hpp>
+#include <veriblock/pop/hashutil.hpp>
+#include <veriblock/pop/strutil.hpp>
+#include <veriblock/pop/validation_state.hpp>
 
 #include "common.hpp"
 using namespace altintegration;
@@ -15,6 +21,18 @@ static ArithUint256 u256_of_hex(const std::string& s) {
   return ArithUint256(le);
 }
 static std::string num(const ArithUint256& a) { return vh::hexnum_le(a.data(), a.size()); }
+
+static std::string str_of(const std::string& hexarg) {
+  auto v = vh::unhex(hexarg);
+  return std::string(v.begin(), v.end());
+}
+static std::string hexs(const std::string& s) {
+  return s.empty() ? std::string("-") : vh::hex((const uint8_t*)s.data(), s.size());
+}
+static bool has_space(const std::string& s) {
+  for (char c : s) if (IsSpace(c)) return true;
+  return false;
+}
 
 static std::string handle(const std::string& id, const std::string& op, const std::vector<std::string>& a) {
   if (op == "frombits" || op == "frombits_b") {
@@ -60,6 +78,78 @@ static std::string handle(const std::string& id, const std::string& op, const st
   if (op == "bits") return vh::hexnum(u256_of_hex(a[0]).bits());
   if (op == "low64") return vh::hexnum(u256_of_hex(a[0]).getLow64());
   if (op == "ofu64") return num(ArithUint256((uint64_t)vh::parse_hex64(a[0])));
+  // ---- text codecs ----
+  if (op == "hexstr") {
+    auto b = vh::unhex(a[0]);
+    std::string t = HexStr(b);
+    if (ParseHex(t) != b) vh::oracle_fail(id, "ParseHex(HexStr(b)) != b");
+    if (!b.empty() && !IsHex(t)) vh::oracle_fail(id, "IsHex(HexStr(b)) is false");
+    return hexs(t);
+  }
+  if (op == "parsehex") return vh::hex(ParseHex(str_of(a[0])));
+  if (op == "ishex") return IsHex(str_of(a[0])) ? "1" : "0";
+  if (op == "b58enc") {
+    auto b = vh::unhex(a[0]);
+    std::string t = EncodeBase58(b);
+    std::vector<uint8_t> back;
+    ValidationState st;
+    if (!DecodeBase58(t, back, st) || back != b) vh::oracle_fail(id, "DecodeBase58(EncodeBase58(b)) != b");
+    return "OK " + hexs(t);
+  }
+  if (op == "b58dec") {
+    std::string t = str_of(a[0]);
+    std::vector<uint8_t> out;
+    ValidationState st;
+    if (!DecodeBase58(t, out, st)) return "INVALID";
+    if (!has_space(t) && EncodeBase58(out) != t) vh::oracle_fail(id, "accepted base58 text does not re-encode to itself");
+    return "OK " + vh::hex(out);
+  }
+  if (op == "b59enc") {
+    auto b = vh::unhex(a[0]);
+    std::string t = EncodeBase59(b);
+    std::vector<uint8_t> back;
+    ValidationState st;
+    if (!DecodeBase59(t, back, st) || back != b) vh::oracle_fail(id, "DecodeBase59(EncodeBase59(b)) != b");
+    return "OK " + hexs(t);
+  }
+  if (op == "b59dec") {
+    std::string t = str_of(a[0]);
+    std::vector<uint8_t> out;
+    ValidationState st;
+    if (!DecodeBase59(t, out, st)) return "INVALID";
+    if (EncodeBase59(out) != t) vh::oracle_fail(id, "accepted base59 text does not re-encode to itself");
+    return "OK " + vh::hex(out);
+  }
+  if (op == "sha") {
+    auto b = vh::unhex(a[0]);
+    return vh::hex(sha256(b).asVector());
+  }
+  if (op == "addrpk") {
+    auto k = vh::unhex(a[0]);
+    Address ad = Address::fromPublicKey(k);
+    bool derived = ad.isDerivedFromPublicKey(k);
+    Address back;
+    ValidationState st;
+    std::string backs;
+    if (back.fromString(ad.toString(), st)) {
+      backs = "OK " + vh::hexnum((uint64_t)back.getType()) + " " + hexs(back.toString());
+      if (!(back == ad) || back.getType() != ad.getType()) vh::oracle_fail(id, "fromString(toString(a)) != a");
+    } else {
+      backs = "INVALID";
+      vh::oracle_fail(id, "fromString(toString(fromPublicKey(k))) rejected");
+    }
+    if (!derived) vh::oracle_fail(id, "isDerivedFromPublicKey(fromPublicKey(k), k) is false");
+    return "OK " + vh::hexnum((uint64_t)ad.getType()) + " " + hexs(ad.toString()) + " derived=" + (derived ? "1" : "0") +
+           " back=" + backs;
+  }
+  if (op == "addrstr") {
+    std::string t = str_of(a[0]);
+    Address ad;
+    ValidationState st;
+    if (!ad.fromString(t, st)) return "INVALID";
+    if (ad.toString() != t) vh::oracle_fail(id, "toString(fromString(s)) != s");
+    return "OK " + vh::hexnum((uint64_t)ad.getType()) + " " + hexs(ad.toString());
+  }
   return "UNKNOWN-OP";
 }
 
